@@ -576,7 +576,8 @@ def run(c):
     # ---- circular: exhaustive + random
     cl = 6 if c.thorough else 5
     NEAR_WRAP = ["r:3", "p:91", "p:92", "q"]  # read_pos=1, write_pos=2, cap=3: two more pushes wrap around
-    for prefix, ln in (([], cl - 1), (["r:3"], cl), (["r:2", "w", "r:1"], cl - 1), (NEAR_WRAP, cl - 1)):
+    for prefix, ln in (([], cl - 1), (["r:3"], cl if c.thorough else cl - 1), (["r:2", "w", "r:1"], cl - 1),
+                       (NEAR_WRAP, cl - 1)):
         for b in batches(circ_exhaustive(prefix, ln), 100000):
             do("circ-exh", b)
     for b in batches(circ_exhaustive(NEAR_WRAP, cl - 1, alphabet=("p", "q", "x:0", "x:1", "x:2", "w", "a")), 100000):
@@ -607,7 +608,7 @@ def run(c):
         "tree: every Set/Delete sequence of the planned exact lengths over small key sets (%s; the tree is dumped after "
         "every operation so shorter histories are covered as prefixes), all insertion orders of %d keys + 2 deletions, "
         "ascending/descending runs up to 39, %d random histories (styles mix/asc/desc/phases, up to %d ops); "
-        "circular: every sequence of %d (after `reserve 3`) / one fewer (from empty, after a swapped-in capacity 2, from a state about to wrap; "
+        "circular: every sequence of %d (thorough, after `reserve 3`) / one fewer (from empty, after `reserve 3` in quick, after a swapped-in capacity 2, from a state about to wrap; "
         "also with stores through IndexRef at positions 0..2 in the alphabet) "
         "mutators from {push,pop,reserve 3,reserve 5,clear,swap,deep-assign} with all observers after each step, %d random histories; distinct = distinct line text; every line "
         "contains at least one state-changing operation except the fixed malformed/empty probes" % (
